@@ -3,7 +3,7 @@
 
  (A) specs/GlobalIndex.tla        implementation-shaped: GenerateGlobalIndex / DecodeGlobalIndex / the little-endian and
                                   big-endian 32-byte forms as byte-string functions over a small "byte" base B; TLC
-                                  exhaustive over every byte pattern (B in 2..4, part size 1..4); it also exports all
+                                  exhaustive over every byte pattern (B in 2..3 quick, 2..5 thorough; part size 1..4); it also exports all
                                   2*2^4*2^4 zero/non-zero byte patterns at the real part size
  (B) harness/areas/globalindex    each pattern instantiated with real byte values {0x01,0x80,0xff,random} + boundary
                                   triples + seeded random triples + random canonical on-chain values, grouped into
@@ -199,7 +199,7 @@ def body():
                         "triples as 16-bit halves, values as 16-bit limbs (bit layout) and decimal strings (equality with the on-chain "
                         "value), fixed width 32, completeness per claim. Hash-valued consumers are named by dictionary lookup against "
                         "an independent reference (keccak over 32-byte little-endian); an unknown hash equals nothing."
-                        % ("2..4" if thorough else "2..3", "1..4", mc["distinct"], " and 12 more random instantiations" if thorough else ""),
+                        % ("2..5" if thorough else "2..3", "1..4", mc["distinct"], " and 12 more random instantiations" if thorough else ""),
             states=mc["distinct"], transitions=mc["generated"],
             traces_validated_against_impl=len(behs),
             samples=samples,
